@@ -12,8 +12,10 @@ SPEC = {
              "then the real CommandExecutor/CommandRegistry with every handler of internal/command and internal/app/server) into a fresh "
              "real in-memory server stack (memory storage, built-in cloud control, connection-code/port-mapping services, HTTP domain "
              "repository, NotificationService, ServerAuthHandler) built from the world in the case string, and a second time with "
-             "SenderId/ReceiverId/Token blanked; exhaustive matrix: every command type 0..130 x 5 connection identities (listen party, "
-             "target party, stranger, registered-unauthenticated, never-handshaken) x claimed fields x request/response packet type x "
+             "SenderId/ReceiverId/Token blanked; exhaustive matrix: every command type 0..130 x 7 connection identities, each reached through the REAL handshake path (handleHandshake -> "
+             "ServerAuthHandler with sealed secrets: listen party, target party, stranger authenticated by a correct HMAC; refused "
+             "handshake; never-handshaken; phase 1 only = challenge pending for client 1001; phase 2 answered wrongly), plus the "
+             "configuration without executor (handleDefaultCommand) and the entry point ProcessCommand (predicate only) x claimed fields x request/response packet type x "
              "named object (own / other party's / stranger's / empty / unknown id) x target client; claimed SenderId/ReceiverId/Token "
              "range over numbers, garbage AND things that exist in the world (`@c<i>` the connection id of another — live, "
              "authenticated — connection, `@m/@s/@k/@d` mapping ids, secret keys, codes, domain ids); plus random worlds (casts, owners, "
